@@ -4,12 +4,20 @@ C06 — executable model of hybrid merging, selection, sorting and paging.  Core
   searchParallel  (shard/index/search.go)   ↦ `searchParallel`
   back-fill       (shard/shard.go)          ↦ `backfill`
   select          (shard/shard.go)          ↦ `queryVal` (msgpack `Decoder.Query`), `setNested`, `selectDoc`
-  CompareAny, AccessNestedProperty, SortSearchResults (utils/compare.go) ↦ `cmpAny`, `accessVal`, `sortCmp`
+  CompareAny (+ isNumber, compareNumbers, compareIntegerFloat), AccessNestedProperty, SortSearchResults
+                  (utils/compare.go)        ↦ `cmpAny` (`numOf`, `cmpNumbers`, `cmpIntegerFloat`), `accessVal`, `sortCmp`
   offset / limit  (shard/shard.go)          ↦ `pagePinned` (the slice expression of the pinned tree),
                                               `pageRepaired` (after the overflow-safe repair)
 
 Hybrid scores live in an arbitrary type `S` with an arbitrary `add` (Go: float32 `+=`); sorting is
-any function that returns a sorted permutation (Go's `slices.SortFunc` is unstable).
+any function that returns a sorted permutation (Go's `slices.SortFunc` is unstable; the
+`slices.SortStableFunc` by hybrid score in `SearchPoints` is additionally the identity on a list
+that is already in order).
+
+The model follows the repaired tree (repository commits `fix: order ranked results by hybrid score in
+Shard.SearchPoints …`, `fix: a select path that cannot be followed on one point …`, `fix: CompareAny
+orders numbers of different kinds by value`): the three hypotheses the earlier model had to carry
+(two or more sub-queries, no select path through a scalar, one reflect.Kind per sort key) are gone.
 -/
 import SemaModel.Base.Bytes
 import SemaModel.Base.Float
@@ -86,8 +94,8 @@ def backfill {S : Type} (r : SubResult S) : List (Entry S) :=
 inductive Val where
   | nil
   | bool (b : Bool)
-  | int (w : Nat) (v : Int)        -- int8 / int16 / int32 / int64, by the *encoded* width
-  | uint (w : Nat) (v : Nat)       -- uint8 / uint16 / uint32 / uint64
+  | int (w : Nat) (v : BitVec 64)  -- int8 / int16 / int32 / int64, by the *encoded* width; `reflect.Value.Int()` = `v.toInt`
+  | uint (w : Nat) (v : BitVec 64) -- uint8 / uint16 / uint32 / uint64; `reflect.Value.Uint()` = `v.toNat`
   | f32 (bits : BitVec 32)
   | f64 (bits : BitVec 64)
   | str (s : Bytes)
@@ -147,13 +155,15 @@ def setNested : Doc → List String → Val → Except Unit Doc
 def overlay (acc d : Doc) : Doc := d.foldl (fun a e => put a e.1 e.2) acc
 
 /-- the select loop over one point; a path is a list of segments (`strings.Split(p, ".")`), `["*"]`
-is the star -/
+is the star.  When `Query` fails the stored bytes are re-read with `dec.Skip()`: a stored document is
+well-formed msgpack (it is a `Val`), so the skip succeeds and the loop `continue`s — the point simply
+lacks the path. -/
 def selectDoc (d : Doc) : List (List String) → Doc → Except Unit Doc
   | [], acc => .ok acc
   | p :: rest, acc =>
     if p = ["*"] then .ok (overlay acc d)
     else match queryVal (.map d) p with
-      | .error e => .error e
+      | .error _ => selectDoc d rest acc
       | .ok none => selectDoc d rest acc
       | .ok (some v) => match setNested acc p v with
         | .error e => .error e
@@ -190,19 +200,91 @@ def cmpF32 (x y : BitVec 32) : Int :=
 
 def cmpStr (a b : Bytes) : Int := if lexLt a b then -1 else if lexLt b a then 1 else 0
 
-def asInt : Val → Int | .int _ v => v | _ => 0          -- `av.Int()`
-def asUint : Val → Nat | .uint _ v => v | _ => 0       -- `av.Uint()`
+def asInt : Val → Int | .int _ v => v.toInt | _ => 0      -- `av.Int()`
+def asUint : Val → Nat | .uint _ v => v.toNat | _ => 0   -- `av.Uint()`
 def asF32 : Val → BitVec 32 | .f32 x => x | _ => 0     -- `av.Float()` of a float32 (exact widening)
 def asF64 : Val → BitVec 64 | .f64 x => x | _ => 0     -- `av.Float()`
 def asStr : Val → Bytes | .str s => s | _ => []        -- `av.String()`
 
-/-- `utils.CompareAny`: different kinds are ordered by `reflect.Kind`; the same kind by the `switch at` -/
+/-! #### numbers of different kinds: `compareNumbers`
+
+A float is read through its exact value: every finite float64 is an integer multiple of `2^-1074`,
+so `value · 2^1074` is an integer (`scaled64`); a float32 widens exactly (`scaled32`).  `±Inf` come
+out beyond every finite value.  NaN is a flag of its own. -/
+
+/-- the common scale: `2^1074` -/
+def K : Int := 2 ^ 1074
+
+/-- magnitude of a float64 bit pattern (sign bit removed) times `2^1074` -/
+def mag64 (b : Nat) : Nat :=
+  let e := b / 2 ^ 52
+  let m := b % 2 ^ 52
+  if e = 0 then m else (2 ^ 52 + m) * 2 ^ (e - 1)
+
+/-- magnitude of a float32 bit pattern times `2^1074`; exponent 255 (`Inf`) widens to the float64 `Inf` -/
+def mag32 (b : Nat) : Nat :=
+  let e := b / 2 ^ 23
+  let m := b % 2 ^ 23
+  if e = 0 then m * 2 ^ 925
+  else if e < 255 then (2 ^ 23 + m) * 2 ^ (e - 1) * 2 ^ 925
+  else mag64 (2047 * 2 ^ 52) + m
+
+def scaled64 (x : BitVec 64) : Int := if F64.isNeg x then -(mag64 (F64.mag x) : Int) else (mag64 (F64.mag x) : Int)
+def scaled32 (x : BitVec 32) : Int := if F32.isNeg x then -(mag32 (F32.mag x) : Int) else (mag32 (F32.mag x) : Int)
+
+/-- what `isNumber` / `CanInt` / `CanUint` / `CanFloat` and `Int()` / `Uint()` / `Float()` see -/
+inductive Num where
+  | int (v : Int)                   -- `av.Int()`
+  | uint (v : Nat)                  -- `av.Uint()`
+  | flt (nan : Bool) (s : Int)      -- `av.Float()`: is it NaN; its value times `2^1074`
+
+def numOf : Val → Option Num
+  | .int _ v => some (.int v.toInt)
+  | .uint _ v => some (.uint v.toNat)
+  | .f32 x => some (.flt (F32.isNaN x) (scaled32 x))
+  | .f64 x => some (.flt (F64.isNaN x) (scaled64 x))
+  | _ => none
+
+/-- `cmp.Compare` on two float64 values: NaN is less than any non-NaN and equal to NaN -/
+def cmpFlt (na : Bool) (sa : Int) (nb : Bool) (sb : Int) : Int :=
+  if na then (if nb then 0 else -1) else if nb then 1 else cmpInt sa sb
+
+/-- `math.Trunc`, on the scaled value: the integer part, towards zero -/
+def truncK (s : Int) : Int := if 0 ≤ s then s / K else -((-s) / K)
+
+/-- `compareIntegerFloat(n, f, lo, hi)`: NaN or below the integer type → the integer is greater; at or
+above `hi` → smaller; otherwise `t := math.Trunc(f)`, the integers `n` and `T(t)` are compared and
+`cmp.Compare(t, f)` decides a tie -/
+def cmpIntegerFloat (n : Int) (nan : Bool) (s : Int) (lo hi : Int) : Int :=
+  if nan ∨ s < lo * K then 1
+  else if hi * K ≤ s then -1
+  else
+    let t := truncK s
+    if cmpInt n t ≠ 0 then cmpInt n t else cmpInt (t * K) s
+
+/-- `compareNumbers`, with the final `return -compareNumbers(bv, av)` unfolded -/
+def cmpNumbers : Num → Num → Int
+  | .int a, .int b => cmpInt a b
+  | .uint a, .uint b => cmpInt a b
+  | .flt na sa, .flt nb sb => cmpFlt na sa nb sb
+  | .int a, .uint b => if a < 0 then -1 else cmpInt a b            -- `uint64(av.Int())` of a non-negative int64
+  | .int a, .flt nb sb => cmpIntegerFloat a nb sb (-(2 ^ 63)) (2 ^ 63)
+  | .uint a, .flt nb sb => cmpIntegerFloat a nb sb 0 (2 ^ 64)
+  | .uint a, .int b => -(if b < 0 then -1 else cmpInt b a)
+  | .flt na sa, .int b => -(cmpIntegerFloat b na sa (-(2 ^ 63)) (2 ^ 63))
+  | .flt na sa, .uint b => -(cmpIntegerFloat b na sa 0 (2 ^ 64))
+
+/-- `utils.CompareAny`: two numbers of different kinds are compared by value (`compareNumbers`), other
+values of different kinds by `reflect.Kind`; the same kind by the `switch at` -/
 def cmpAny (a b : Val) : Int :=
   let ka := kindOf a
   let kb := kindOf b
-  if ka ≠ kb then cmpInt ka kb
+  if ka ≠ kb then
+    match numOf a, numOf b with
+    | some x, some y => cmpNumbers x y
+    | _, _ => cmpInt ka kb
   else if 2 ≤ ka ∧ ka ≤ 6 then cmpInt (asInt a) (asInt b)          -- Int, Int8 … Int64
-  else if 7 ≤ ka ∧ ka ≤ 11 then cmpInt (asUint a) (asUint b)       -- Uint, Uint8 … Uint64
+  else if 7 ≤ ka ∧ ka ≤ 12 then cmpInt (asUint a) (asUint b)       -- Uint, Uint8 … Uint64, Uintptr
   else if ka = 13 then cmpF32 (asF32 a) (asF32 b)                  -- Float32
   else if ka = 14 then cmpF64 (asF64 a) (asF64 b)                  -- Float64
   else if ka = 24 then cmpStr (asStr a) (asStr b)                  -- String
@@ -285,12 +367,22 @@ inductive Outcome (S : Type) where
   | selectError
   | slicePanic
 
-def searchPoints {S : Type} (docOf : Id → Doc) (sorter : List (Row S) → List (Row S)) (repaired : Bool)
+/-- everything `Shard.SearchPoints` does before the offset / limit slice: `rankSorter` is the
+`slices.SortStableFunc` by hybrid score, highest first, applied to what the index search returned;
+back-fill; select; `sorter` is `utils.SortSearchResults` -/
+def fullRows {S : Type} (docOf : Id → Doc) (rankSorter : List (Res S) → List (Res S))
+    (sorter : List (Row S) → List (Row S)) (r : SubResult S) (rq : Request) : Except Unit (List (Row S)) :=
+  match mapExcept (fun (e : Entry S) => (shape rq (docOf e.id)).map (fun d => (⟨e.id, e.hybrid, d⟩ : Row S)))
+      (backfill ⟨r.set, rankSorter r.res⟩) with
+  | .error e => .error e
+  | .ok rows => .ok (if rq.sort.isEmpty then rows else sorter rows)
+
+def searchPoints {S : Type} (docOf : Id → Doc) (rankSorter : List (Res S) → List (Res S))
+    (sorter : List (Row S) → List (Row S)) (repaired : Bool)
     (r : SubResult S) (rq : Request) : Outcome S :=
-  match mapExcept (fun (e : Entry S) => (shape rq (docOf e.id)).map (fun d => (⟨e.id, e.hybrid, d⟩ : Row S))) (backfill r) with
+  match fullRows docOf rankSorter sorter r rq with
   | .error _ => .selectError
   | .ok rows =>
-    let rows := if rq.sort.isEmpty then rows else sorter rows
     match (if repaired then pageRepaired rows rq.off rq.lim else pagePinned rows rq.off rq.lim) with
     | .error _ => .slicePanic
     | .ok p => .rows p
@@ -305,5 +397,69 @@ def contribs {S : Type} (rs : List (Res S)) (id : Id) : List S :=
 def sumLeft {S : Type} (add : S → S → S) : List S → Option S
   | [] => none
   | x :: xs => some (xs.foldl add x)
+
+/-- the hybrid score a ranked list reports for `id` -/
+def hybridOf {S : Type} (rs : List (Res S)) (id : Id) : Option S := (rs.find? (fun r => r.id == id)).map (·.hybrid)
+
+/-! ### query trees: `indexManager.Search` recursing through `_and` / `_or` -/
+
+mutual
+/-- a query tree whose leaves are the answers of the ranking / filter indices -/
+inductive QTree (S : Type) where
+  | leaf (r : SubResult S)
+  | node (isOr : Bool) (subs : QForest S)
+inductive QForest (S : Type) where
+  | nil
+  | cons (t : QTree S) (ts : QForest S)
+end
+
+def QForest.isNil {S : Type} : QForest S → Bool
+  | .nil => true
+  | .cons _ _ => false
+
+mutual
+/-- `indexManager.Search` on a composite query: every sub-query is searched, then `searchParallel` -/
+def evalTree {S : Type} (add : S → S → S) (sorter : List (Res S) → List (Res S)) : QTree S → SubResult S
+  | .leaf r => r
+  | .node isOr subs => searchParallel add sorter isOr (evalForest add sorter subs)
+def evalForest {S : Type} (add : S → S → S) (sorter : List (Res S) → List (Res S)) : QForest S → List (SubResult S)
+  | .nil => []
+  | .cons t ts => evalTree add sorter t :: evalForest add sorter ts
+end
+
+mutual
+/-- the documented id set of a query tree: union for `_or`, intersection for `_and` (empty for no sub-query) -/
+def inSetB {S : Type} : QTree S → Id → Bool
+  | .leaf r, id => decide (id ∈ r.set)
+  | .node isOr ts, id => if isOr then anySetB ts id else (!ts.isNil && allSetB ts id)
+def anySetB {S : Type} : QForest S → Id → Bool
+  | .nil, _ => false
+  | .cons t ts, id => inSetB t id || anySetB ts id
+def allSetB {S : Type} : QForest S → Id → Bool
+  | .nil, _ => true
+  | .cons t ts, id => inSetB t id && allSetB ts id
+end
+
+mutual
+/-- the documented hybrid score of a point in a query tree: at a leaf what the index reports; at a
+composite the sum, in sub-query order, of the hybrid scores of the sub-queries that rank the point —
+provided the point is in the composite's id set; `none` = not ranked -/
+def hybridSpec {S : Type} (add : S → S → S) : QTree S → Id → Option S
+  | .leaf r, id => hybridOf r.res id
+  | .node isOr ts, id => if inSetB (.node isOr ts) id then sumLeft add (hybridsSpec add ts id) else none
+def hybridsSpec {S : Type} (add : S → S → S) : QForest S → Id → List S
+  | .nil, _ => []
+  | .cons t ts, id => (hybridSpec add t id).toList ++ hybridsSpec add ts id
+end
+
+mutual
+/-- the leaves are well formed: ranked ids are in the leaf's id set, each at most once -/
+def leavesWF {S : Type} : QTree S → Prop
+  | .leaf r => (∀ x ∈ r.res, x.id ∈ r.set) ∧ (r.res.map (·.id)).Nodup
+  | .node _ ts => forestWF ts
+def forestWF {S : Type} : QForest S → Prop
+  | .nil => True
+  | .cons t ts => leavesWF t ∧ forestWF ts
+end
 
 end Sema.C06
